@@ -157,6 +157,9 @@ func vfC07Run(c vfSerCase, ctx *vfCtx) *vfViolation {
 		if approxHNSW && i < len(c.ContVec) && (c.ContVec[i].Op == "add" || c.ContVec[i].Op == "add_bad" || c.ContVec[i].Op == "flush") {
 			continue // random levels / graph surgery make the two graphs diverge legitimately
 		}
+		if c.Kind == "hybrid" && c.Hyb != nil && c.Hyb.HasVec && c.Hyb.VecKind == "hnsw" && i < len(c.ContHyb) && c.ContHyb[i].Op == "flush" {
+			continue // see the mid-sweep flush below: a Flush may re-elect different entry points in the two copies
+		}
 		if !src.applyCont(i) {
 			break
 		}
